@@ -953,6 +953,40 @@ def run_session(ctx, sess):
         groups.append('[' + '; '.join(f'DropSig {nat(i)}' for i in range(2)) + ']'
                       if call in ('sig', 'trial', 'trial_bkg_sig') else '[]')
         impl_obs.append((status, observe_impl(S, enc)))
+        # ---- predicate: a freshly generated background is made from the stored data only (seeded C07-2: a cached copy
+        # that is re-scrambled in place accumulates the signal merged in earlier trials)
+        if call == 'bkg' and status == 'Ok':
+            for i in range(2):
+                ev = S.events[i]
+                if ev is None:
+                    continue
+                doc = DOC.get(S.scr_kinds[i], []) if S.scr_kinds[i] else []
+                if S.mkinds[i] == 'fixed':
+                    src, rows = S.datas[i].exp, None
+                elif S.mkinds[i] == 'mc' and S.cfgd['ds'][i]['presel'] != 'mask':
+                    src = S.datas[i].mc
+                    rows = [e[1] for e in LOG if e[0] == 'choice' and e[1].dtype.names is None]
+                    rows = rows[[j for j in range(2) if S.mkinds[j] != 'fixed'].index(i)] if rows else None
+                    if rows is None:
+                        continue
+                else:
+                    continue
+                n_want = len(src) if rows is None else len(rows)
+                bad = []
+                if len(ev) != n_want:
+                    bad.append(f'{len(ev)} rows instead of {n_want}')
+                else:
+                    for f in ev.field_name_list:
+                        if f in doc or f not in src:
+                            continue
+                        want = src[f] if rows is None else src[f][rows]
+                        if ev[f].dtype != want.dtype or not np.array_equal(ev[f], want):
+                            bad.append('field ' + f)
+                if bad:
+                    ctx.violation('Analysis.bkg:' + S.mkinds[i], 'generated-background-not-from-stored-data',
+                                  f'dataset {i}: {bad[:4]}', case=sess, impl=bad[:6],
+                                  predicate='a generated background has the rows of the stored data (all of exp / the drawn '
+                                            'MC rows) and equals them in every non-documented field')
         # ---- predicate: byte snapshots of exp / mc
         snap = snapshot(S)
         if snap != snap0:
@@ -1070,6 +1104,12 @@ def corpus_sessions():
         {'cfg': {'seed': 10, 'ds': [dsc(bkg='comp', scr=None, presel='mask'), dsc(bkg='comp', scr='uniform', presel='all')],
                  'valid_range': False},
          'calls': ['bkg', 'bkg', 'sig', 'init'], 'mean_sig': 3},
+        # generate background, merge signal via the real Analysis path, generate background again (seeded C07-2)
+        {'cfg': {'seed': 12, 'ds': [dsc(bkg='fixed', scr='uniform'), dsc(bkg='fixed', scr='i3time')], 'valid_range': False},
+         'calls': ['bkg', 'sig', 'bkg', 'sig_only', 'trial_bkg_sig', 'bkg'], 'mean_sig': 5},
+        {'cfg': {'seed': 13, 'ds': [dsc(bkg='mc', scr='uniform', presel=None), dsc(bkg='comp', scr='coretime')],
+                 'valid_range': False},
+         'calls': ['bkg', 'sig', 'bkg', 'sig', 'bkg'], 'mean_sig': 5},
         # composite method with an EMPTY component dictionary, with and without scrambler (audit mutation 2)
         {'cfg': {'seed': 11, 'ds': [dsc(bkg='comp', scr='uniform', comps='none'), dsc(bkg='comp', scr=None, comps='none')],
                  'valid_range': False},
@@ -1096,12 +1136,15 @@ def narrowing_probe(ctx):
         def __init__(self, xs):
             self.random = R(xs)
     ranges = [None, (0.0, 2 * math.pi), (1.0, 5.0), (4.5, 6.0), (0.1, 0.7), (3.0, 2 * math.pi),
-              (float(np.float32(1.1)), float(np.float32(2.3))), (1.1, 2.3), (6.0, 6.2831854)]
+              (float(np.float32(1.1)), float(np.float32(2.3))), (1.1, 2.3), (6.0, 6.2831854),
+              # lower bounds that round DOWN in float32 (the narrowed bound has to be moved inwards; seeded C07-3)
+              (float(np.deg2rad(266)), 2 * math.pi), (4.6425, 6.0), (1.3, 2.7)]
     rng = ctx.rng
     for rr in ranges:
         lo, hi = rr if rr else (0.0, 2 * math.pi)
         for dt, k in ((np.float32, 29), (np.float64, 0)):
-            xs = [lo, np.nextafter(hi, lo), np.nextafter(np.nextafter(hi, lo), lo), np.nextafter(lo, hi)]
+            xs = [lo, np.nextafter(hi, lo), np.nextafter(np.nextafter(hi, lo), lo), np.nextafter(lo, hi),
+                  lo + 1e-9, lo + 3e-8, lo + 1e-7, lo + 3e-7]
             f32 = float(np.float32(hi))
             for q in (f32, float(np.nextafter(np.float32(hi), np.float32(0)))):
                 for d in (-2, -1, 0, 1, 2):
@@ -1277,6 +1320,11 @@ def run_sessions(ctx, sessions, tag):
                 expr, impl_obs, enc = run_session(ctx, s)
             except Exception as ex:   # noqa: BLE001 -- a session the harness cannot drive is a broken check
                 ctx.broken.append({'kind': 'harness', 'error': f'{type(ex).__name__}: {ex}', 'session': s})
+                continue
+            if len(expr) > 60000:
+                # a signal redraw loop that ran for very many rounds: the history term is too large for a quick
+                # vm_compute; the implementation side predicates were evaluated, the model comparison is skipped
+                ctx.count('session:model-comparison-skipped(too long)')
                 continue
             exprs.append(expr)
             keep.append((s, impl_obs, enc))
